@@ -46,6 +46,11 @@ theorem source_arith_unescape_str : Gen.FSpanFacts.arith_unescape_str
 
 theorem source_arith_unescape_char : Gen.FSpanFacts.arith_unescape_char = [] := rfl
 
+/-- `Parser::simple_literal`: the content of a string / character token is `&s[1..s.len() - 1]` and the span handed
+to the decoder starts one byte (the quote) after the token (`v1` = the token's span, `v3` = its text) -/
+theorem source_arith_simple_literal : Gen.FSpanFacts.arith_simple_literal
+    = ["v3.len()-1", "start:v1.start+1", "v3.len()-1", "start:v1.start+1"] := rfl
+
 /-! ## non-vacuity -/
 
 /-- the brace arm fires: `{{` from `piece_start = 0` cuts `0..0` and continues at 2 -/
